@@ -192,13 +192,31 @@ fn alg45(r: u64, key: &[u8], id: &[u8]) -> Vec<u8> {
         x
     }
 }
-/// Algorithm 2.B
-fn alg2b(pw: &[u8], salt: &[u8], u: &[u8]) -> Vec<u8> {
+/// where an Algorithm 2.B evaluation stopped: number of rounds done, last byte of E in that round,
+/// and whether some earlier round >= 64 missed the stopping test by exactly one (last == round - 31)
+#[derive(Clone, Copy, Debug, Default)]
+pub struct Stop {
+    pub round: u32,
+    pub last: u32,
+    pub cont31: bool,
+}
+impl Stop {
+    /// last - (round - 32): 0 = stopped exactly on the boundary `last_byte == round - 32`
+    pub fn margin(&self) -> i64 {
+        self.last as i64 - (self.round as i64 - 32)
+    }
+    fn json(&self) -> Value {
+        json!([self.round, self.last, self.cont31])
+    }
+}
+/// Algorithm 2.B (ISO 32000-2 7.6.4.3.4), with the stopping information
+fn alg2b_info(pw: &[u8], salt: &[u8], u: &[u8]) -> (Vec<u8>, Stop) {
     let mut d = pw.to_vec();
     d.extend_from_slice(salt);
     d.extend_from_slice(u);
     let mut k = sha256(&d);
     let mut round = 0u32;
+    let mut cont31 = false;
     loop {
         let mut k1 = vec![];
         for _ in 0..64 {
@@ -214,11 +232,36 @@ fn alg2b(pw: &[u8], salt: &[u8], u: &[u8]) -> Vec<u8> {
             _ => sha512(&e),
         };
         round += 1;
-        if round >= 64 && (*e.last().unwrap() as u32) <= round - 32 {
-            break;
+        let last = *e.last().unwrap() as u32;
+        if round >= 64 && last <= round - 32 {
+            return (k[..32].to_vec(), Stop { round, last, cont31 });
+        }
+        if round >= 64 && last == round - 31 {
+            cont31 = true;
         }
     }
-    k[..32].to_vec()
+}
+fn alg2b(pw: &[u8], salt: &[u8], u: &[u8]) -> Vec<u8> {
+    alg2b_info(pw, salt, u).0
+}
+/// draw 8-byte salts until the 2.B evaluation satisfies `want` (0 none; 1 stops with last == round-32;
+/// 2 last == round-33; 3 a round missed the test by one, last == round-31); None after 4000 draws
+fn search_salt(pw: &[u8], u: &[u8], want: u64, rng: &mut Rng) -> (Vec<u8>, Vec<u8>, Stop, bool) {
+    let mut tries = 0;
+    loop {
+        let salt = rng.bytes(8);
+        let (h, st) = alg2b_info(pw, &salt, u);
+        let ok = match want {
+            1 => st.margin() == 0,
+            2 => st.margin() == -1,
+            3 => st.cont31,
+            _ => true,
+        };
+        tries += 1;
+        if ok || tries >= 4000 {
+            return (salt, h, st, ok);
+        }
+    }
 }
 
 #[derive(Clone, Debug)]
@@ -231,10 +274,12 @@ pub struct ISpec {
     pub perm: u32,
     pub seed: u64,
     pub open_as: u64, // 0 user password, 1 owner password
+    pub mass: bool,   // one of the many small R6 files (channel r6): opened with BOTH passwords
+    pub bsearch: u64, // R6: 10*slot + want; slot 1 user validation salt, 2 user key salt, 3 owner validation salt, 4 owner key salt; want as in search_salt
 }
 impl ISpec {
     fn json(&self) -> Value {
-        json!({"mode": self.mode, "encmeta": self.encmeta, "objstm": self.objstm, "user": self.user, "owner": self.owner, "perm": self.perm, "seed": self.seed, "open_as": self.open_as, "i2l": true})
+        json!({"mode": self.mode, "encmeta": self.encmeta, "objstm": self.objstm, "user": self.user, "owner": self.owner, "perm": self.perm, "seed": self.seed, "open_as": self.open_as, "mass": self.mass, "bsearch": self.bsearch, "i2l": true})
     }
     fn from(v: &Value) -> ISpec {
         ISpec {
@@ -246,6 +291,8 @@ impl ISpec {
             perm: v["perm"].as_u64().unwrap_or(0xFFFF_F0C4) as u32,
             seed: v["seed"].as_u64().unwrap_or(1),
             open_as: v["open_as"].as_u64().unwrap_or(0),
+            mass: v["mass"].as_bool().unwrap_or(false),
+            bsearch: v["bsearch"].as_u64().unwrap_or(0),
         }
     }
 }
@@ -271,6 +318,9 @@ struct Built {
     fkey: Vec<u8>,
     direct: Vec<(u32, T, T)>,  // num, plain, encrypted-as-written
     members: Vec<(u32, T)>,    // num, plain (as it stands in the object stream)
+    stops: Vec<Stop>,          // R6: user validation, user key, owner validation, owner key
+    h2b: Option<(Vec<u8>, Vec<u8>, Vec<u8>, Vec<u8>, Stop)>, // the searched 2.B evaluation: pw, salt, u, hash
+    found: bool,
 }
 
 fn ref_encrypt_obj(meth: u64, fkey: &[u8], onum: u32, encmeta: bool, o: &T, rng: &mut Rng) -> T {
@@ -344,7 +394,8 @@ fn build(s: &ISpec) -> Built {
     let content = b"BT /F1 12 Tf 50 700 Td (Hello independent world) Tj ET".to_vec();
     let xmp = b"<?xpacket begin='' id='W5M0MpCehiHzreSzNTczkc9d'?><x:xmpmeta xmlns:x='adobe:ns:meta/'><rdf:RDF xmlns:rdf='http://www.w3.org/1999/02/22-rdf-syntax-ns#'/></x:xmpmeta><?xpacket end='w'?>".to_vec();
     let mut objs: Vec<(u32, T)> = vec![
-        (1, T::Dict(d(vec![("Type", nmt("Catalog")), ("Pages", T::Ref(2, 0)), ("Metadata", T::Ref(8, 0)), ("Lang", st("en-GB"))]))),
+        (1, T::Dict(d(vec![("Type", nmt("Catalog")), ("Pages", T::Ref(2, 0)), ("Metadata", T::Ref(8, 0)), ("Lang", st("en-GB")),
+            ("AcroForm", T::Dict(d(vec![("DA", st("/Helv 0 Tf 0 g")), ("Fields", T::Arr(vec![T::Dict(d(vec![("FT", nmt("Tx")), ("T", st("inline field")), ("V", st("inline value"))]))]))])))]))),
         (2, T::Dict(d(vec![("Type", nmt("Pages")), ("Kids", T::Arr(vec![T::Ref(3, 0)])), ("Count", num(1))]))),
         (
             3,
@@ -367,6 +418,18 @@ fn build(s: &ISpec) -> Built {
                 ("Rect", T::Arr(vec![num(10), num(10), num(30), num(30)])),
                 ("Contents", st("annotation text")),
                 ("RC", T::Arr(vec![st("in array"), T::Dict(d(vec![("Deep", st("nested dict in array"))]))])),
+                // arrays whose elements are ONLY dictionaries (strings at depth 1, 2, 3)
+                (
+                    "Kids",
+                    T::Arr(vec![
+                        T::Dict(d(vec![("T", st("kid one")), ("V", st("value one"))])),
+                        T::Dict(d(vec![("T", st("kid two")), ("Sub", T::Dict(d(vec![("D2", st("depth two")), ("Deeper", T::Dict(d(vec![("D3", st("depth three"))])))])))])),
+                    ]),
+                ),
+                // numbers / names / references + a dictionary, no direct string or array sibling
+                ("Mix", T::Arr(vec![num(1), nmt("Name"), T::Ref(3, 0), T::Dict(d(vec![("S", st("dictionary among numbers and names"))]))])),
+                // a single-dictionary array inside a dictionary inside an array of dictionaries
+                ("Nest", T::Arr(vec![T::Dict(d(vec![("Inner", T::Arr(vec![T::Dict(d(vec![("Leaf", st("leaf in inner dict array"))]))]))]))])),
             ])),
         ),
         // a stream whose DICTIONARY holds strings (embedded-file parameters)
@@ -396,23 +459,40 @@ fn build(s: &ISpec) -> Built {
     let (upw, opw): (Vec<u8>, Vec<u8>) = if r <= 4 { (pdfdoc(&s.user), pdfdoc(&s.owner)) } else { (s.user.as_bytes().to_vec(), s.owner.as_bytes().to_vec()) };
     let mut ep = EncParams { r, n: n as u64, p, id: id.clone(), encmeta, meth, ..Default::default() };
     let fkey;
+    let mut stops = vec![];
+    let mut h2b = None;
+    let mut found = true;
     if r <= 4 {
         ep.o = alg3(r, n, &opw, &upw);
         fkey = alg2(r, n, &upw, &ep.o, p, &id, encmeta);
         ep.u = alg45(r, &fkey, &id);
     } else {
         fkey = rng.bytes(32);
-        let (uv, uk, ov, ok_) = (rng.bytes(8), rng.bytes(8), rng.bytes(8), rng.bytes(8));
         let upw = &upw[..upw.len().min(127)];
         let opw = &opw[..opw.len().min(127)];
-        let mut u = alg2b(upw, &uv, &[]);
+        let (slot, want) = ((s.bsearch % 100) / 10, s.bsearch % 10);
+        let w = |k: u64| if slot == k { want } else { 0 };
+        let (uv, uh, s1, f1) = search_salt(upw, &[], w(1), &mut rng);
+        let (uk, ukh, s2, f2) = search_salt(upw, &[], w(2), &mut rng);
+        let mut u = uh.clone();
         u.extend_from_slice(&uv);
         u.extend_from_slice(&uk);
-        ep.ue = AesEnc::new(&alg2b(upw, &uk, &[])).cbc_raw(&[0u8; 16], &fkey);
-        let mut o = alg2b(opw, &ov, &u);
+        ep.ue = AesEnc::new(&ukh).cbc_raw(&[0u8; 16], &fkey);
+        let (ov, oh, s3, f3) = search_salt(opw, &u, w(3), &mut rng);
+        let (ok_, okh, s4, f4) = search_salt(opw, &u, w(4), &mut rng);
+        let mut o = oh.clone();
         o.extend_from_slice(&ov);
         o.extend_from_slice(&ok_);
-        ep.oe = AesEnc::new(&alg2b(opw, &ok_, &u)).cbc_raw(&[0u8; 16], &fkey);
+        ep.oe = AesEnc::new(&okh).cbc_raw(&[0u8; 16], &fkey);
+        stops = vec![s1, s2, s3, s4];
+        found = f1 && f2 && f3 && f4;
+        h2b = match slot {
+            1 => Some((upw.to_vec(), uv.clone(), vec![], uh, s1)),
+            2 => Some((upw.to_vec(), uk.clone(), vec![], ukh, s2)),
+            3 => Some((opw.to_vec(), ov.clone(), u.clone(), oh, s3)),
+            4 => Some((opw.to_vec(), ok_.clone(), u.clone(), okh, s4)),
+            _ => None,
+        };
         ep.u = u;
         ep.o = o;
         let mut pp = p.to_le_bytes().to_vec();
@@ -510,10 +590,10 @@ fn build(s: &ISpec) -> Built {
         out.push(b'\n');
     }
     out.extend_from_slice(format!("startxref\n{}\n%%EOF\n", startxref).as_bytes());
-    Built { bytes: out, ep, fkey, direct, members: if s.objstm { member_objs } else { vec![] } }
+    Built { bytes: out, ep, fkey, direct, members: if s.objstm { member_objs } else { vec![] }, stops, h2b, found }
 }
 
-fn i2l_doc(s: &ISpec, ikey: &mut Out, i2l: &mut Out) {
+fn i2l_doc(s: &ISpec, ikey: &mut Out, i2l: &mut Out, r6: &mut Out, h2b: &mut Out) {
     let b = build(s);
     let js = |ch: &str, extra: Value| {
         let mut v = s.json();
@@ -527,6 +607,10 @@ fn i2l_doc(s: &ISpec, ikey: &mut Out, i2l: &mut Out) {
     };
     // the raw objects are re-read from the bytes by the scanner (what is judged is the FILE)
     let raws = scan_objects(&b.bytes);
+    if s.mass {
+        mass_doc(s, &b, &raws, &js, r6, i2l, h2b);
+        return;
+    }
     let mut ids: Vec<(u32, u16)> = b.direct.iter().map(|(n, _, _)| (*n, 0u16)).collect();
     ids.extend(b.members.iter().map(|(n, _)| (*n, 0u16)));
     // Algorithm 3 (a): without an owner password the user password takes its place
@@ -546,6 +630,10 @@ fn i2l_doc(s: &ISpec, ikey: &mut Out, i2l: &mut Out) {
     if rb.unlock != Some(true) {
         return;
     }
+    push_objs(&b, &raws, &ids, &rb, &cls, &js, i2l);
+}
+
+fn push_objs(b: &Built, raws: &[(u32, u16, T)], ids: &[(u32, u16)], rb: &c05::ReadBack, cls: &str, js: &dyn Fn(&str, Value) -> Value, i2l: &mut Out) {
     for (i, (n, _g)) in ids.iter().enumerate() {
         let lib = rb.objects.get(i).map(|(_, _, r)| r.clone()).unwrap_or(Err("missing".into()));
         let (flags, plain, raw) = match b.direct.iter().find(|(dn, _, _)| dn == n) {
@@ -565,9 +653,58 @@ fn i2l_doc(s: &ISpec, ikey: &mut Out, i2l: &mut Out) {
                 b.ep.meth, coq_bool(b.ep.encmeta), coq_bytes(&b.fkey), n, flags, plain.coq(), raw.coq(), coq_opt(lib.as_ref().ok().map(|t| t.coq()))
             ),
             js("i2l", json!({"obj": n, "member": flags, "dictstr": stream_dict_string(&plain), "clearmeta": !b.ep.encmeta && is("Type", "Metadata"), "lib_err": lib.as_ref().err()})),
-            &cls,
+            cls,
             plain.has_payload(),
         );
+    }
+}
+
+
+/// one of the many small revision-6 files: both passwords must open it and give the file key; the
+/// stopping round / last byte of each of the encryptor's four Algorithm 2.B evaluations is reported
+fn mass_doc(s: &ISpec, b: &Built, raws: &[(u32, u16, T)], js: &dyn Fn(&str, Value) -> Value, r6: &mut Out, i2l: &mut Out, h2b: &mut Out) {
+    let ids: Vec<(u32, u16)> = vec![(1, 0), (5, 0), (6, 0)];
+    let margins: Vec<i64> = b.stops.iter().map(|x| x.margin()).collect();
+    let cls = if !b.found {
+        "boundary-not-found"
+    } else if margins.iter().any(|m| *m == 0) {
+        "stop-on-boundary(last=round-32)"
+    } else if margins.iter().any(|m| *m == -1) {
+        "stop-last=round-33"
+    } else if b.stops.iter().any(|x| x.cont31) {
+        "passed-last=round-31"
+    } else {
+        "other"
+    };
+    let stops: Vec<Value> = b.stops.iter().map(|x| x.json()).collect();
+    if s.bsearch >= 100 {
+        if let Some((pw, salt, u, h, st)) = &b.h2b {
+            h2b.push(
+                format!("({}, {}, {}, {})", coq_bytes(pw), coq_bytes(salt), coq_bytes(u), coq_bytes(h)),
+                js("h2b", json!({"stop": st.json(), "margin": st.margin()})),
+                &format!("margin{}{}", st.margin(), if st.cont31 { "-cont31" } else { "" }),
+                true,
+            );
+        }
+    }
+    for (role, pw) in [(0u64, &s.user), (1, &s.owner)] {
+        if role == 1 && (s.owner.is_empty() || s.owner == s.user) {
+            continue;
+        }
+        let rb = c05::read_back(&b.bytes, pw, &ids, false);
+        if let Err(e) = &rb.opened {
+            r6.impl_failures.push(json!({"case": js("r6", json!({"role": role})), "what": format!("the library does not open the file: {e}")}));
+            continue;
+        }
+        r6.push(
+            format!("({}, {}, {})", coq_bytes(&b.fkey), coq_obool(rb.unlock), coq_obytes(rb.key.as_ref())),
+            js("r6", json!({"role": role, "lib_ok": rb.unlock, "stops": stops, "margins": margins})),
+            &format!("{}-role{}", cls, role),
+            true,
+        );
+        if rb.unlock == Some(true) && (role == 0 || s.bsearch != 0) {
+            push_objs(b, raws, &ids, &rb, "m4-mass", js, i2l);
+        }
     }
 }
 
@@ -580,6 +717,10 @@ pub fn run(ctx: &Ctx) {
     let mut l2i = Out::new(ctx, HEADER, "l2i_case", "l2i_code");
     let mut ikey = Out::new(ctx, HEADER, "ikey_case", "ikey_code");
     let mut i2l = Out::new(ctx, HEADER, "i2l_case", "i2l_code");
+    let mut r6 = Out::new(ctx, HEADER, "r6open_case", "r6open_code");
+    let mut h2b = Out::new(ctx, HEADER, "h2b_case", "h2b_code");
+    r6.shard_size = 400;
+    h2b.shard_size = 1; // one Algorithm 2.B evaluation inside Coq per shard
     lkey.shard_size = 10;
     l2i.shard_size = 30;
     ikey.shard_size = 1; // revision 6 (Algorithm 2.B) takes minutes inside Coq
@@ -636,13 +777,29 @@ pub fn run(ctx: &Ctx) {
                     if owner == user {
                         owner.push_str("-o");
                     }
-                    i.push(ISpec { mode, encmeta: *encmeta, objstm: *objstm, user, owner, perm: 0xFFFF_F0C4, seed: rng.next() % 100000, open_as: rng.below(2) });
+                    i.push(ISpec { mode, encmeta: *encmeta, objstm: *objstm, user, owner, perm: 0xFFFF_F0C4, seed: rng.next() % 100000, open_as: rng.below(2), mass: false, bsearch: 0 });
                 }
             }
             // revision 6: Algorithm 2.B costs minutes per evaluation inside Coq -> very few key cases
-            i.push(ISpec { mode: 4, encmeta: true, objstm: true, user: "us\u{e9}r".into(), owner: "owner".into(), perm: 0xFFFF_F0C4, seed: rng.next() % 100000, open_as: 0 });
+            i.push(ISpec { mode: 4, encmeta: true, objstm: true, user: "us\u{e9}r".into(), owner: "owner".into(), perm: 0xFFFF_F0C4, seed: rng.next() % 100000, open_as: 0, mass: false, bsearch: 0 });
             if ctx.thorough() {
-                i.push(ISpec { mode: 4, encmeta: false, objstm: false, user: "".into(), owner: "owner".into(), perm: 0xFFFF_FFFC, seed: rng.next() % 100000, open_as: 1 });
+                i.push(ISpec { mode: 4, encmeta: false, objstm: false, user: "".into(), owner: "owner".into(), perm: 0xFFFF_FFFC, seed: rng.next() % 100000, open_as: 1, mass: false, bsearch: 0 });
+            }
+            // many small revision-6 files from the harness's own Algorithm 2.B: searched salts put an
+            // evaluation exactly on the stopping boundary (last byte == round - 32), one below it and one
+            // round that misses it by one, for the user and the owner side; the rest are random pairs
+            let searched: Vec<u64> = if ctx.thorough() { vec![111, 112, 113, 21, 31, 41, 22, 32, 42, 23, 33, 43] } else { vec![111, 21, 31, 41, 12, 33] };
+            let nmass = if ctx.thorough() { 150 } else { 48 };
+            let alphabet: Vec<char> = "abcXYZ019 ()\u{e9}\u{20ac}".chars().collect();
+            for k in 0..nmass {
+                let mut word = |rng: &mut Rng, lo: u64, hi: u64| -> String { (0..rng.range(lo, hi)).map(|_| *rng.pick(&alphabet)).collect() };
+                let user = if k % 7 == 6 { String::new() } else { word(&mut rng, 1, 8) };
+                let mut owner = word(&mut rng, 1, 10);
+                if owner == user {
+                    owner.push('o');
+                }
+                let bsearch = searched.get(k).copied().unwrap_or(0);
+                i.push(ISpec { mode: 4, encmeta: true, objstm: false, user, owner, perm: 0xFFFF_F0C4, seed: rng.next() % 1000000, open_as: 0, mass: true, bsearch });
             }
             (l, i)
         }
@@ -651,12 +808,14 @@ pub fn run(ctx: &Ctx) {
         l2i_doc(s, &mut lkey, &mut l2i);
     }
     for s in &ispecs {
-        i2l_doc(s, &mut ikey, &mut i2l);
+        i2l_doc(s, &mut ikey, &mut i2l, &mut r6, &mut h2b);
     }
     lkey.finish("lkey");
     l2i.finish("l2i");
     ikey.finish("ikey");
     i2l.finish("i2l");
+    r6.finish("r6");
+    h2b.finish("h2b");
 }
 
 fn c05_sample(rng: &mut Rng) -> Value {
